@@ -112,7 +112,7 @@ def _call(mon, case, which, ref, hyp, **over):
         warnings.simplefilter("ignore")
         if case["form"] == "module":
             cls = M.EditDistance if which == "edit_distance" else M.PrefixEditDistances
-            return mon.lib(which, lambda: LY.travelled(cls(**kw), case["R"], case["H"], len(case["ref"]))(ref, hyp), documented=documented)
+            return mon.lib(which, lambda: LY.travelled(G.build_module(cls, kw, case), case["R"], case["H"], len(case["ref"]))(ref, hyp), documented=documented)
         fn = getattr(F, which)
         return mon.lib(which, lambda: fn(ref, hyp, **kw), documented=documented)
 
